@@ -34,6 +34,7 @@ func stateJobs(quick bool) []gossipJob {
 			{P: P("S2", 165, 4, 3, 0, 1, true), Need: []string{"MarkersApplied", "RelayLearned"}},
 			{P: P("S3", 165, 2, 2, 0, 1, false), Need: []string{"TruncatedDeltas"}},
 			{P: P("S5", 130, 2, 3, 0, 1, false), Need: []string{"TruncatedDigests"}},
+			{P: P("S8", 1400, 3, 3, 0, 1, false), Need: []string{"LeavesSeen", "StaleDiscarded"}},
 		}
 	}
 	d := sec(600)
@@ -49,6 +50,8 @@ func stateJobs(quick bool) []gossipJob {
 		{P: P("S3", 210, 2, 3, 0, 2, false), Deadline: d, Need: []string{"TruncatedDeltas"}},
 		{P: P("S5", 130, 3, 4, 1, 2, false), Deadline: d, Need: []string{"TruncatedDigests"}},
 		{P: P("S5", 1400, 3, 4, 1, 2, false), Deadline: d},
+		{P: P("S8", 1400, 5, 4, 1, 2, false), Deadline: d, Need: []string{"LeavesSeen", "StaleDiscarded"}},
+		{P: P("S8", 145, 4, 4, 1, 2, false), Deadline: d, Need: []string{"LeavesSeen", "TruncatedDeltas"}},
 	}
 }
 
@@ -84,6 +87,7 @@ func init() {
 				{P: P("S3", 165, 2, 2, 0, 1, false), Need: []string{"ClosureDiverged"}},
 				{P: P("S5", 130, 2, 3, 0, 1, false), Need: []string{"ClosureDiverged", "TruncatedDigests"}},
 				{P: P("S7", 165, 3, 2, 0, 1, false)},
+				{P: P("S8", 1400, 3, 3, 0, 1, false), Need: []string{"ClosureDiverged"}},
 			}
 		} else {
 			d := sec(600)
@@ -96,6 +100,7 @@ func init() {
 				{P: P("S3", 210, 2, 3, 0, 2, false), Deadline: d, Need: []string{"ClosureDiverged"}},
 				{P: P("S5", 130, 3, 4, 0, 2, false), Deadline: d, Need: []string{"ClosureDiverged", "TruncatedDigests"}},
 				{P: P("S7", 165, 3, 3, 0, 2, false), Deadline: d},
+				{P: P("S8", 1400, 4, 4, 0, 2, false), Deadline: d, Need: []string{"ClosureDiverged"}},
 			}
 		}
 		runGossip(run, "C03", jobs)
@@ -108,7 +113,7 @@ func init() {
 		if !run.Thorough() {
 			jobs = []gossipJob{
 				{P: P4(3, 2, 0, 1, 2, 1, true), Need: []string{"LeavesSeen", "Unreachables", "Relearned"}},
-				{P: P("S6", 165, 2, 2, 0, 1, true), Need: []string{"LeavesSeen", "Unreachables"}},
+				{P: P("S6", 165, 2, 3, 0, 1, true), Need: []string{"LeavesSeen", "Unreachables"}},
 			}
 		} else {
 			d := sec(900)
@@ -130,6 +135,7 @@ func init() {
 				{P: P("S6", 1400, 3, 3, 0, 1, false), Need: []string{"RelayLearned", "MarkersApplied"}},
 				{P: P("S6", 165, 3, 3, 0, 1, false), Need: []string{"RelayLearned", "TruncatedDeltas"}},
 				{P: P("S6", 165, 2, 3, 0, 1, true), Need: []string{"LeavesSeen", "Unreachables", "Relearned"}},
+				{P: P("S6", 1400, 3, 2, 0, 0, true), Need: []string{"LeavesSeen"}},
 			}
 		} else {
 			d := sec(900)
